@@ -279,7 +279,39 @@ func c02(r *mon.Run) {
 			res, _, _ := cx.runBoth(tree, gen.SpellTight(tree), doc)
 			c02Account(t, tree, gen.SpellTight(tree), doc, res, i)
 		}}
-	r.Exec(exh, rnd, typed, lng, fcw, kindPairsWorkload(r, "C02"))
+	// members named like built-in functions, projected next to calls of those functions: `rows[?type].type(@)` takes
+	// the member as the condition and the call as the right-hand side
+	fnames := ref.FunctionNames()
+	fnShapes := 7
+	fnw := mon.Workload{Name: "members-named-like-functions", N: len(fnames) * fnShapes,
+		Do: func(i int, t *mon.Tally) {
+			f := fnames[i/fnShapes]
+			F := func() *gen.Expr { return gen.Field(f) }
+			rows := []interface{}{map[string]interface{}{f: "disk", "i": float64(0)}, map[string]interface{}{f: []interface{}{"net", "usb"}, "i": float64(1)}, map[string]interface{}{"i": float64(2)}, map[string]interface{}{f: float64(0), "i": float64(3)}}
+			doc := map[string]interface{}{"rows": rows, f: map[string]interface{}{f: float64(1)}}
+			R := gen.Field("rows")
+			var tree *gen.Expr
+			switch i % fnShapes {
+			case 0:
+				tree = gen.Chain(R, gen.StFilter(F()), gen.StFunc("type", gen.Current()))
+			case 1:
+				tree = gen.Chain(R, gen.StFilter(F()), gen.StFunc(f, gen.Current()))
+			case 2:
+				tree = gen.Chain(R, gen.StFilter(F()), gen.StFunc(f, F()))
+			case 3:
+				tree = gen.Chain(R, gen.StListStar(), gen.StField(f))
+			case 4:
+				tree = gen.Chain(R, gen.StFilter(F()), gen.StField(f))
+			case 5:
+				tree = gen.Chain(F(), gen.StStar())
+			default:
+				tree = gen.Chain(R, gen.StFilter(gen.Func("type", F())), gen.StMultiList(F(), gen.Func("type", F())))
+			}
+			cx := &caseCtx{r, t, "members-named-like-functions", i}
+			res, _, _ := cx.runBoth(tree, gen.SpellTight(tree), doc)
+			c02Account(t, tree, gen.SpellTight(tree), doc, res, i)
+		}}
+	r.Exec(exh, rnd, typed, lng, fcw, fnw, kindPairsWorkload(r, "C02"))
 }
 
 func c02Account(t *mon.Tally, tree *gen.Expr, expr string, doc interface{}, res ref.Result, i int) {
